@@ -183,4 +183,24 @@ CHECKS = {
             job("real", "c15", ["TestC15RealEnum", "TestC15Real"], 1, 1, 1, 1, run="^TestC15RealEnum$"),
         ],
     },
+    "C12": {
+        "level": "fault_enumeration",
+        "manifest": {
+            "technique": "fault enumeration inside the property-based harness: rapid-generated databases (independent builder, and files written by SQLite with secondary indexes on WITHOUT ROWID tables and partial indexes); for every operation the number n of page reads is measured and the k-th read is failed for every k in 1..n as I/O error, short read (io.EOF) and 0xFF-filled page, plus a failing RLock; oracle = error returned and delivered rows a prefix of the fault-free result",
+            "level_text": "Exhaustive in k (every page read from Open to the end of the operation) and in three fault kinds per (database, operation); databases and operation arguments are sampled. Oracle: err != nil and rows a positional prefix of the fault-free rows, no panic.",
+            "level_note": "Faults are injected in the harness pager behind the verif hook (one fault per run, fresh handle per run). 0xFF-filled overflow pages are excluded and counted: no reader can detect them. The database/sql driver's error hand-off is covered under C19 with corrupted files.",
+        },
+        "rule": ("builder images: 0-25 rows per tree, depth 1-5, overflow values, 1-2 indexes, WITHOUT ROWID table; operations: Select, Columns, SelectRowid, PKSelect, IndexedSelect, IndexedSelectEq and the low-level "
+                 "Table.Scan/Rowid, Index.Scan/ScanMin/ScanEq/ScanRange; SQLite-built: WITHOUT ROWID table with two secondary indexes + partial index on a rowid table, 1-40 rows with overflow. "
+                 "One evaluation = one database with all (operation, k, kind) faults (counted as faults-injected). Non-trivial = at least one fault on an operation performing nested lookups "
+                 "(table row fetched inside an index scan callback). Distinct = fingerprint of the database spec."),
+        "assumptions": ["system libsqlite3 (3.40.1) writes the SQLite-built files and validates builder images before a report"],
+        "min_nontrivial": {"quick": 60, "thorough": 1000},
+        "required_classes": ["builder:depth=2", "builder:depth=3", "sqlite-built", "faults-on-operations-with-nested-lookups"],
+        "timeout": {"quick": 300, "thorough": 1500},
+        "jobs": [
+            job("builder", "c12", ["TestC12Builder"], 150, 2500, 2, 8),
+            job("sqlite", "c12", ["TestC12SQLite"], 60, 1000, 2, 6),
+        ],
+    },
 }
